@@ -83,12 +83,19 @@ pub enum K {
     MClone,
     MCopyToBytes,
     MDrop,
+    MPutBytes,
+    MPutBuf,
+    MChunkMut,
+    MWriteStr,
+    MExtendIter,
+    BIntoIter,
+    MIntoIter,
 }
 pub const ALL_K: &[K] = &[
     K::Root, K::BClone, K::BSlice, K::BSliceIncl, K::BSliceRef, K::BSliceRefForeign, K::BSplitOff, K::BSplitTo, K::BTruncate, K::BClear,
     K::BAdvance, K::BCopyToBytes, K::BTryIntoMut, K::BIntoMut, K::BIntoVec, K::BDrop, K::MSplitOff, K::MSplitTo, K::MSplit, K::MTruncate,
     K::MClear, K::MAdvance, K::MResize, K::MReserve, K::MTryReclaim, K::MExtend, K::MPutU8, K::MWrite, K::MFillSpare, K::MUnsplit,
-    K::MFreeze, K::MIntoVec, K::MClone, K::MCopyToBytes, K::MDrop,
+    K::MFreeze, K::MIntoVec, K::MClone, K::MCopyToBytes, K::MDrop, K::MPutBytes, K::MPutBuf, K::MChunkMut, K::MWriteStr, K::MExtendIter, K::BIntoIter, K::MIntoIter,
 ];
 pub fn k_from_str(s: &str) -> Option<K> {
     ALL_K.iter().cloned().find(|k| format!("{:?}", k) == s)
@@ -959,6 +966,101 @@ impl World {
                         } else {
                             drop_in_subject(nb);
                         }
+                    }
+                    Err(()) => panicked = true,
+                }
+            }
+            K::MPutBytes => {
+                // BufMut::put_bytes: reserve + write_bytes + advance_mut
+                let n = op.a;
+                let r = self.call(|w| w.m(s).put_bytes(0xB7, n));
+                match r {
+                    Ok(()) => {
+                        let l = self.model(s).len();
+                        self.model(s).resize(l + n, 0xB7);
+                    }
+                    Err(()) => panicked = true,
+                }
+            }
+            K::MPutBuf => {
+                // BufMut::put(impl Buf) with a two-chunk source (the per-chunk loop of `put`), b = position of the chunk boundary
+                let d = self.fresh(op.a);
+                let cut = op.b.min(op.a);
+                let r = self.call(|w| {
+                    let src = Buf::chain(&d[..cut], &d[cut..]);
+                    w.m(s).put(src)
+                });
+                match r {
+                    Ok(()) => self.model(s).extend_from_slice(&d),
+                    Err(()) => panicked = true,
+                }
+            }
+            K::MChunkMut => {
+                // the BufMut protocol used in contract: chunk_mut() (grows a full buffer), write a bytes, advance_mut(a)
+                let d = self.fresh(op.a.max(1));
+                let n = op.a;
+                let r = self.call(|w| {
+                    let m = w.m(s);
+                    let c = m.chunk_mut();
+                    let cl = c.len();
+                    let k = n.min(cl);
+                    for i in 0..k {
+                        c.write_byte(i, d[i]);
+                    }
+                    unsafe { m.advance_mut(k) };
+                    (cl, k)
+                });
+                match r {
+                    Ok((cl, k)) => {
+                        if self.check && cl == 0 {
+                            self.vio("C04", "chunk_mut-empty", "BytesMut::chunk_mut() returned an empty slice although remaining_mut() > 0".into());
+                        }
+                        self.model(s).extend_from_slice(&d[..k]);
+                    }
+                    Err(()) => panicked = true,
+                }
+            }
+            K::MWriteStr => {
+                // fmt::Write::write_str (ASCII payload so that it is a str)
+                let n = op.a;
+                let txt: String = (0..n).map(|i| (b'a' + (i % 26) as u8) as char).collect();
+                let r = self.call(|w| core::fmt::Write::write_str(w.m(s), &txt).is_ok());
+                match r {
+                    Ok(ok) => {
+                        self.last.ret = ok as i64;
+                        if ok {
+                            self.model(s).extend_from_slice(txt.as_bytes());
+                        } else if self.check {
+                            self.vio("C01", "write_str-err", format!("write_str of {} bytes failed on a growable BytesMut", n));
+                        }
+                    }
+                    Err(()) => panicked = true,
+                }
+            }
+            K::MExtendIter => {
+                // Extend<u8> (b = 0) / Extend<&u8> (b = 1) with an exact size hint
+                let d = self.fresh(op.a);
+                let by_ref = op.b == 1;
+                let r = self.call(|w| if by_ref { w.m(s).extend(d.iter()) } else { w.m(s).extend(d.iter().cloned()) });
+                match r {
+                    Ok(()) => self.model(s).extend_from_slice(&d),
+                    Err(()) => panicked = true,
+                }
+            }
+            K::BIntoIter | K::MIntoIter => {
+                // consuming iteration: yields exactly the bytes, then releases the handle
+                let sl = self.slots[s].take().unwrap();
+                let m = sl.model.clone();
+                let r = self.call(move |_w| match sl.h {
+                    H::B(b) => b.into_iter().collect::<Vec<u8>>(),
+                    H::M(mm) => mm.into_iter().collect::<Vec<u8>>(),
+                });
+                match r {
+                    Ok(v) => {
+                        if self.check && v != m {
+                            self.vio("C01", "into_iter-bytes", format!("into_iter() yielded {:02x?}, model {:02x?}", v, m));
+                        }
+                        drop_in_subject(v);
                     }
                     Err(()) => panicked = true,
                 }
